@@ -574,6 +574,16 @@ func WriteFile(path, content string) {
 	}
 }
 
+// WriteExec writes a file that is going to be executed. The write happens under syscall.ForkLock (read side), the
+// lock os/exec takes before it forks: no child of this process can be forked while the descriptor is open for
+// writing, so none inherits it for the moment between fork and exec - which is what makes an exec of the fresh
+// file by somebody else fail with ETXTBSY ("text file busy") when many cases fork in parallel.
+func WriteExec(path string, content []byte, mode os.FileMode) error {
+	syscall.ForkLock.RLock()
+	defer syscall.ForkLock.RUnlock()
+	return os.WriteFile(path, content, mode)
+}
+
 func ReadFile(path string) string {
 	b, _ := os.ReadFile(path)
 	return string(b)
